@@ -261,6 +261,7 @@ Proof.
     + inversion Hh; subst. left. reflexivity.
     + inversion Hh; subst. left. reflexivity.
     + inversion Hh; subst. left. reflexivity.
+    + inversion Hh; subst. left. reflexivity.
   - pose proof (HI.handle_inv cfg pol user sigma r Hinv) as Hi. rewrite Hh in Hi. exact Hi.
 Qed.
 
